@@ -23,7 +23,7 @@ import os
 # installs them in memory so that the stand-alone run shows the state "all known".
 PROPOSED_KNOWN = [
     {"id": "C19-LP1", "status": "known",
-     "match": r"^lp:simplex:(ib|nil|conv):hang:wide:degenerate$",
+     "match": r"^lp:simplex:(ib|nil|conv):hang:wide:degenerate:classic$",
      "what": "lp.Simplex cycles forever at a degenerate vertex: replaceBland (optimize/convex/lp/simplex.go) applies "
              "Bland's rule to POSITIONS in nonBasicIdx/basicIdxs, which are permuted by every swap, not to variable "
              "indices (e.g. Chvatal's example with the slack columns first, no initial basis: c=[0,0,0,9,24,57,-10] "
@@ -156,7 +156,7 @@ def run_lp(ctx):
             part = os.path.join(ctx.work, "named-%d.ndjson" % i)
             with open(part, "w") as fh:
                 fh.write("\n".join(lines[i:i + per]) + "\n")
-            ctx.replay(bins[0][1], "lp", part, ["watchdog=2s", "maxhangs=%d" % (6 if th else 2)],
+            ctx.replay(bins[0][1], "lp", part, ["watchdog=2s", "maxhangs=%d" % (6 if th else 2), "tag=classic"],
                        name="R2 replay classics %d..%d" % (i, i + per - 1))
 
     thunks.append(named)
